@@ -188,7 +188,8 @@ func (w *c39World) unseal() {
 	a := &bifrost_cli.EnvelopeArgs{InputPath: filepath.Join(w.root, "no-such-input"), OutputPath: filepath.Join(w.root, "out")}
 	a.KeyPaths = *cli.NewStringSlice(w.path)
 	err := a.RunUnseal(nil)
-	s.Logf("cli unseal with key file in state %s -> %v", before, err)
+	// (the error text carries the scratch path, which differs per process: not logged)
+	s.Logf("cli unseal with key file in state %s -> error=%v", before, err != nil)
 	s.Count("done:cli-unseal")
 	if before == "torn" || before == "corrupt" {
 		// the damage may have left a complete key (e.g. only the final newline cut)
